@@ -603,6 +603,30 @@ func suiteTtml(R *runner, r *rng) {
 			}
 			for j := range v.Items[i].Lines {
 				for k := range v.Items[i].Lines[j] {
+					if r.chance(1, 6) {
+						// random XML-legal characters (any plane; tab and CR included, LF is a line boundary)
+						var b strings.Builder
+						for n := 1 + r.intn(3); n > 0; n-- {
+							var c rune
+							switch r.intn(6) {
+							case 0:
+								c = rune(0x20 + r.intn(0x5f))
+							case 1:
+								c = rune(0x80 + r.intn(0x780))
+							case 2:
+								c = rune(0x800 + r.intn(0xd000))
+							case 3:
+								c = rune(0xe000 + r.intn(0x1ffe))
+							case 4:
+								c = rune(0x10000 + r.intn(0x100000))
+							default:
+								c = []rune{0x9, 0xd, 0x85, 0xa0, 0x2028, 0xfffd, 0xd7ff, 0x10ffff}[r.intn(8)]
+							}
+							b.WriteRune(c)
+						}
+						v.Items[i].Lines[j][k].Text += b.String()
+						R.count("ttml.write.random_legal_text")
+					}
 					if r.chance(1, 8) {
 						v.Items[i].Lines[j][k].Text = r.pick("\t", " lead", "trail ", "\ttab", "a\rb", "", "  ", "x ", " x", "]]>", "<![CDATA[", "&#10;", "", "�", "\U0010ffff", "\u0085", " ", "퟿", "\r", " ") + v.Items[i].Lines[j][k].Text
 					}
